@@ -11,6 +11,7 @@ import PenneModel.Sem.Layout
 import PenneModel.Cli.Decide
 import PenneModel.Decls.Imports
 import PenneModel.Types.ValueType
+import PenneModel.Types.Agree
 import PenneModel.Decls.Order
 import PenneModel.Types.Ops
 import PenneModel.Mut.Model
@@ -291,6 +292,16 @@ def handle (op payload : String) : String :=
     | some (.list [.atom "legal", .atom pos, t]) =>
       match Types.positionOf pos, Types.vtOfSexp 32 t with
       | some p, some vt => toString (Types.legality p vt)
+      | _, _ => "bad-request"
+    | _ => "bad-request"
+  | "agree" =>
+    match Sexp.parse payload with
+    | some (.list [.atom "agree", a, b]) =>
+      match Types.tyOfSexp 32 a, Types.tyOfSexp 32 b with
+      | some x, some y =>
+        let bit (v : Bool) : String := if v then "1" else "0"
+        "declared=" ++ bit (Types.Ty.canBeDeclaredAs x y) ++ " conc=" ++ bit (Types.Ty.conc x y)
+          ++ " coerce=" ++ bit (Types.Ty.coerceInto x y) ++ " coerceaddr=" ++ bit (Types.Ty.coerceAddressInto x y)
       | _, _ => "bad-request"
     | _ => "bad-request"
   | "C18" => c18 payload
